@@ -811,7 +811,17 @@ pub fn gen_txn(r: &mut Rng, date: i32, b: &Bias, bal: &mut Bal, formats: &BTreeM
         add_to(&mut local, account, comm, val);
         if r.chance(b.assert_pct, 100) {
             let cur = local.get(&account).and_then(|m| m.get(&comm)).copied().unwrap_or(Decimal::ZERO);
-            let shown = if r.chance(b.wrong_assert_pct, 100) { cur + Decimal::new(r.range(1, 3), 0) } else { cur };
+            // false assertions: off by whole units, or by less than half a unit of a declared precision
+            let shown = if r.chance(b.wrong_assert_pct, 100) {
+                if r.chance(1, 2) {
+                    cur + Decimal::new(r.range(1, 3), 0)
+                } else {
+                    let dp = formats.get(&comm).copied().unwrap_or(2);
+                    cur + Decimal::new(*r.pick(&[1i64, -1, 4, -4, 2, 49, -49]), dp + 1 + r.below(2) as u32)
+                }
+            } else {
+                cur
+            };
             p.balance = Some(plain_lit(shown, comm));
         }
         posts.push(p);
